@@ -130,6 +130,15 @@ def run(ctx):
                     c = dict(fs=rng.choice(FS), ch=rng.choice([1, 2]), app=rng.choice(APPS), cx=rng.choice(CXS), br=br, vbr=vbr, dtx=0,
                              dq=dq, maxb=maxb, fec=rng.choice([0, 1]))
                     lines.append(sched_line(c, [("a", 300), ("s", 300), ("n", 200), ("a", 200)], rng.randrange(1, 1 << 30)))
+    # streams that BEGIN with digital silence on speech-layer / hybrid encoders with the analysis running (both
+    # detectors could be armed at once there): run bound and refresh must hold from the very first packet
+    for dq in (20, 40, 80, 120, 160, 240):
+        for fs in (16000, 24000, 48000):
+            for (br, ch) in ((12000, 1), (16000, 1), (24000, 2), (20000, 1)):
+                c = dict(fs=fs, ch=ch, app=2048, cx=rng.choice([7, 8, 9, 10]), br=max(br, (2 * 96000 + dq - 1) // dq), vbr=rng.choice([0, 1]),
+                         dtx=1, dq=dq, maxb=1500, fec=0, fch=0)
+                lines.append(sched_line(c, [("s", 3000), ("a", 500)], rng.randrange(1, 1 << 30)))
+                lines.append(sched_line(c, [("s", 900), ("a", 300), ("s", 1500)], rng.randrange(1, 1 << 30)))
     # the execution that reaches finding F4 (speech layer overruns a tight buffer with FEC on, DTX off)
     lines.append("X 8000 2 2048 5 256000 1 0 120 120 1 960305695 | a1000 n180 s400")
     rng.shuffle(lines)
